@@ -8,7 +8,7 @@ P=$1; N=$2; HP=${3:-$P}; ONLY=$4
 OUT=/tmp/seed_${P}_out/$N; WT=/tmp/seed_$P
 DEMODIR=$(sed -n 's/^demo_dir: *//p' $OUT/notes.txt | head -1 | sed 's|^\./||')
 PKGS=$(sed -n 's/^test_pkgs: *//p' $OUT/notes.txt | head -1)
-FLAGS=$(sed -n 's/^flags: *//p' $OUT/notes.txt | head -1 | sed 's/`//g')
+FLAGS=$(sed -n 's/^flags: *//p' $OUT/notes.txt | head -1 | sed 's/`//g' | awk '{o="";for(i=1;i<=NF;i++){if(substr($i,1,1)=="-")o=o" "$i;else break};print o}')
 cd $WT || exit 9
 git checkout -q -- . ; rm -f $DEMODIR/zz_demo_test.go
 git apply $OUT/patch.diff || { echo "SEED: patch does not apply in worktree"; exit 9; }
